@@ -12,6 +12,8 @@ import (
 func TestC14Enum(t *testing.T) {
 	rec := NewRecorder("C14", "TestC14Enum")
 	defer rec.Finish(t)
+	w := StartSpinWatch("C14")
+	defer w.Stop()
 	sh, nsh := Shard()
 	idx := 0
 	for _, cfg := range enumCfgs() {
@@ -30,6 +32,7 @@ func TestC14Enum(t *testing.T) {
 				o := &Outcome{}
 				var obs *SrvObs
 				rec.Journal(c)
+				w.Case(c)
 				synctest.Test(t, func(t *testing.T) { obs = RunServerScript(c) })
 				judgeC14(c, obs, o)
 				rec.Eval(c, o)
@@ -41,11 +44,14 @@ func TestC14Enum(t *testing.T) {
 
 func TestC14(t *testing.T) {
 	rec := NewRecorder("C14", "TestC14")
+	w := StartSpinWatch("C14")
+	defer w.Stop()
 	rapid.Check(t, func(rt *rapid.T) {
 		c := genSrvCase(rt, []string{"server"})
 		c.End = rapid.SampledFrom([]string{"eof", "wait", "wait", "silence", "close-now", "cut"}).Draw(rt, "end14")
 		o := &Outcome{}
 		rec.Journal(c)
+		w.Case(c)
 		var obs *SrvObs
 		rapid.SyncTest(rt, func(rt *rapid.T) { obs = RunServerScript(c) })
 		judgeC14(c, obs, o)
